@@ -316,6 +316,8 @@ class ndarray:
     def __iter__(self):
         if not self._shape:
             raise TypeError('iteration over a 0-d array')
+        if _b.len(self._shape) == 1 and self.dtype.kind in 'UO':
+            return iter(self._cells())            # (np.str_ scalars are strs; object arrays hand out the objects)
         return iter([self[i] for i in range(self._shape[0])])
 
     def __deepcopy__(self, memo):
